@@ -465,6 +465,8 @@ def _mask_feas(c):
     return lambda i: o.elems[i] != 0  # truth value of a number
 
 
+from pyvc.plug_c04r import list_entry_marker as entry_mark  # noqa: E402
+
 pos_mark = z3.Function("pareto_position_marker", I_, z3.BoolSort())  # only a trigger (see `complete`)
 mono_mark = z3.Function("pareto_monotone_marker", I_, I_, z3.BoolSort())  # only a trigger: cnt-monotone is instantiated at (a, b) where a proof names mono_mark(a, b)
 
@@ -485,8 +487,11 @@ def _pf_monotone(n, upto=None, marked=True):
     a, b = z3.Int("a!pm"), z3.Int("b!pm")
     top = n if upto is None else upto
     # (as a hypothesis the fact is triggered by the marker alone: the two-term trigger (cnt(a), cnt(b)) multiplies instances quadratically)
-    pats = [mono_mark(a, b)] if marked else [z3.MultiPattern(cnt_pf(a), cnt_pf(b))]
-    return z3.ForAll([a, b], z3.Implies(z3.And(0 <= a, a <= b, b <= top), cnt_pf(a) <= cnt_pf(b)), patterns=pats)
+    ca, cb = cnt_pf(a), cnt_pf(b)
+    body = z3.Implies(z3.And(0 <= a, a <= b, b <= top), ca <= cb)
+    if marked:
+        return z3.ForAll([a, b], body, patterns=[mono_mark(a, b)])
+    return z3.ForAll([a, b], body, patterns=[z3.MultiPattern(ca, cb)])
 
 
 @register
@@ -521,8 +526,9 @@ def _pf_listing(c, L, k):
         ("complete", z3.ForAll([i], z3.Implies(z3.And(0 <= i, i < k, feas(i)), _naming(z3.And(mono_mark(i + 1, k), pos_mark(i)),
                                                                                       z3.And(cnt_pf(i + 1) == cnt_pf(i) + 1, L.elems[cnt_pf(i)] == i))),
                                patterns=[pos_mark(i)])),
-        ("sound", z3.ForAll([j], z3.Implies(z3.And(0 <= j, j < L.n), z3.And(0 <= L.elems[j], L.elems[j] < k, feas(L.elems[j]), cnt_pf(L.elems[j]) == j)),
-                            patterns=[L.elems[j]])),
+        # (triggered by the marker of the j-th list entry alone, named by the clause itself and by the clauses of the second loop that need it)
+        ("sound", z3.ForAll([j], z3.Implies(z3.And(0 <= j, j < L.n), _naming(entry_mark(j), z3.And(0 <= L.elems[j], L.elems[j] < k, feas(L.elems[j]), cnt_pf(L.elems[j]) == j))),
+                            patterns=[entry_mark(j)])),
     ]
 
 
@@ -630,12 +636,12 @@ def _pareto_inv1(c, k):
     return [
         ("mask-shape", M.shape[0] == n),
         # (quantifier-free instance of `sound` at the current position: the subscripts with feasible_indexes[k] are known to be in range)
-        ("current-sample-in-range", z3.Implies(k < L.n, z3.And(0 <= L.elems[k], L.elems[k] < n))),
+        ("current-sample-in-range", z3.Implies(k < L.n, z3.And(0 <= L.elems[k], L.elems[k] < n, cnt_pf(L.elems[k]) == k))),
         ("infeasible-samples-stay-excluded", z3.ForAll([i], z3.Implies(z3.And(0 <= i, i < n, z3.Not(feas(i))), z3.Not(M.elems[i])))),
-        ("decided-samples-reported-only-if", forall_pat([j], z3.Implies(z3.And(0 <= j, j < k, M.elems[L.elems[j]]), pareto_criterion(L.elems, L.n, j)), rd(j))),
+        ("decided-samples-reported-only-if", forall_pat([j], z3.Implies(z3.And(0 <= j, j < k, M.elems[L.elems[j]]), _naming(entry_mark(j), pareto_criterion(L.elems, L.n, j))), rd(j))),
         # (names the marker that lets the definition of pareto_criterion be unfolded at the current position, and only there)
         ("unfold-current", pareto_mark(k)),
-        ("undecided-samples", forall_pat([j], z3.Implies(z3.And(k <= j, j < L.n), M.elems[L.elems[j]]), rd(j))),
+        ("undecided-samples", forall_pat([j], z3.Implies(z3.And(k <= j, j < L.n), _naming(entry_mark(j), M.elems[L.elems[j]])), rd(j))),
     ]
 
 
@@ -665,14 +671,14 @@ class _Pareto(Contract):
         p, q = z3.Int("p!pa"), z3.Int("q!pa")
         rng = lambda t: z3.And(0 <= t, t < n)  # noqa: E731
         # (cnt_pf(p), cnt_pf(q): positions of p and q in the list of feasible samples - named so that the loop invariants are instantiated there)
-        L = c.locals["feasible_indexes"]
-        named = lambda t: z3.And(cnt_pf(t) >= 0, cnt_pf(t + 1) >= 0, L.elems[cnt_pf(t)] >= 0, z3.Or(pos_mark(t), z3.Not(pos_mark(t))))  # noqa: E731
-        ordered = z3.Or(mono_mark(p + 1, q), mono_mark(q + 1, p))  # (names the two instances of cnt-monotone that separate the positions of p and q)
+        # (markers of the facts a proof needs: position of p and q in the list of feasible samples, the two list entries, the two instances of
+        # cnt-monotone that separate the positions; `_naming` keeps the clause logically unchanged)
+        marks = z3.And(pos_mark(p), pos_mark(q), entry_mark(cnt_pf(p)), entry_mark(cnt_pf(q)), mono_mark(p + 1, q), mono_mark(q + 1, p))
         return [
             ("one-flag-per-sample", M.shape[0] == n),
             ("reported-samples-are-feasible", z3.ForAll([p], z3.Implies(z3.And(rng(p), M.elems[p]), feas(p)))),
             ("no-reported-sample-is-dominated-by-a-feasible-one",
-             z3.ForAll([p, q], z3.Implies(z3.And(rng(p), rng(q), M.elems[p], feas(q), q != p, named(p), named(q)), _naming(ordered, z3.Not(_dominates(O, q, p)))))),
+             z3.ForAll([p, q], z3.Implies(z3.And(rng(p), rng(q), M.elems[p], feas(q), q != p), _naming(marks, z3.Not(_dominates(O, q, p)))))),
         ]
 
 
